@@ -21,7 +21,7 @@ def build_prog(name, cxx=False, extra_flags=(), opt="-O0"):
     return exe, None
 
 
-def run_once(exe, args, seed, workdir, tag, replay=None, switch_den=None, timeout=120):
+def run_once(exe, args, seed, workdir, tag, replay=None, switch_den=None, timeout=120, demote_at=None):
     """returns dict(rc, result, log, sched, out)"""
     os.makedirs(workdir, exist_ok=True)
     log = os.path.join(workdir, tag + ".log")
@@ -31,6 +31,8 @@ def run_once(exe, args, seed, workdir, tag, replay=None, switch_den=None, timeou
         env["CTL_REPLAY"] = replay
     if switch_den:
         env["CTL_SWITCH_DEN"] = str(switch_den)
+    if demote_at is not None:
+        env["CTL_DEMOTE_AT"] = str(demote_at)
     rc, out, err = common.sh([exe] + [str(a) for a in args], timeout=timeout, env=env)
     m = re.search(r"^RESULT (\w+)(.*)$", out, re.M)
     return {"rc": rc, "result": m.group(1) if m else None, "detail": (m.group(2).strip() if m else ""),
@@ -155,22 +157,33 @@ def campaign(res, pid, prog, variants, nseeds, drivers, workers_note="", extra_f
 
 
 def search_more(res, pid, prog, variants, nseeds):
-    """deeper violation search after a break: more seeds, higher preemption rates, oracle only"""
+    """deeper violation search after a break: oracle only, more seeds, two strategies alternating:
+    high preemption rates, and 'delay one participant at one random event until the others only
+    spin' (finds orderings that need one thread to be overtaken for a long stretch)"""
     exe, err = build_prog(prog)
     if err:
         return
     work = os.path.join(common.BUILD, "runs", pid + "-search")
     shutil.rmtree(work, ignore_errors=True)
     rng = common.Splitmix(res.seed * 77 + 3)
+    nseeds = max(nseeds, 1500)
     for i in range(nseeds):
         args = list(variants[i % len(variants)])
         seed = rng.below(1 << 30) + 1
-        r = run_once(exe, args, seed, work, "s%d" % i, switch_den=[2, 2, 3, 4][i % 4])
+        dem = None
+        if i % 2 == 1:
+            dem = 5 + rng.below(1000)
+        r = run_once(exe, args, seed, work, "s%d" % (i % 50), switch_den=[2, 8, 3, 8][i % 4], demote_at=dem)
         kind, text = judge(r)
         if kind == "violation":
             d = save_replay(pid, r, [prog] + args, seed)
+            with open(os.path.join(d, "args.txt"), "a") as f:
+                if dem is not None:
+                    f.write("note: found with CTL_DEMOTE_AT=%d (the recorded schedule replays it without that option)\n" % dem)
             res.violations.append((d, True, "%s %s seed=%s: %s" % (prog, " ".join(map(str, args)), seed, text)))
+            res.notes["search_runs"] = i + 1
             return
+    res.notes["search_runs"] = nseeds
 
 
 def replay(pid, path):
